@@ -17,7 +17,7 @@ THEOREMS = ['Vakt.C10.empty_inv', 'Vakt.C10.setattr_inv', 'Vakt.C10.setattr_reje
 EXTRA_BUILD = ['+Gen.EquivPolicy']
 GEN_IMPORTS = ['Gen.EquivPolicy']
 GEN_THEOREMS = ['Vakt.GenEquiv.gen_calculate_type', 'Vakt.GenEquiv.gen_check_field_type', 'Vakt.GenEquiv.gen_check_field_type_model',
-                'Vakt.GenEquiv.gen_setattr', 'Vakt.GenEquiv.translatedPolicy_covers']
+                'Vakt.GenEquiv.gen_setattr', 'Vakt.GenEquiv.gen_init', 'Vakt.GenEquiv.translatedPolicy_covers']
 FLOOR = {'quick': 500, 'thorough': 10000}
 FIELDS = ['subjects', 'resources', 'actions']
 
